@@ -370,6 +370,37 @@ func checkC20(p *Prog, r *Report) {
 		r.OK(kp("STATE", "query-reads-process-memory#none"), "query answers derive from the committed store only: no memory written by block processing or by queries is read by a query", "x/*",
 			fmt.Sprintf("%d functions in query scope, no written-and-read long-lived location", len(qs)))
 	}
+	// nothing to deadlock on: validation, sign-bytes, query and genesis-validation code starts no goroutine and touches no channel
+	{
+		scopeG := append([]*ssa.Function(nil), wide...)
+		for _, fn := range p.ModFuncs {
+			if fn.Blocks != nil && !p.IsGenerated(fn) && !all[fn] && inExactPkgs(fn, "x/aol/types", "x/did/types", "x/pnft/types", "x/burn/types", "types/compkey") {
+				scopeG = append(scopeG, fn)
+			}
+		}
+		nBadG := 0
+		for _, fn := range scopeG {
+			if fn.Blocks == nil {
+				continue
+			}
+			if what, at := goroutineOrChannelUse(fn); what != "" {
+				nBadG++
+				r.Fail(kp("RACE", FuncName(fn)+"#no-goroutines-or-channels"), "validation, sign-bytes, query and genesis-validation code is sequential: no goroutine, channel or WaitGroup (nothing to deadlock on or to race with)", p.Pos(at.Pos()),
+					fmt.Sprintf("%s uses %s: with more producers than the channel buffers, or a wait before the receive, the call never returns; and what the goroutines share is unsynchronised", FuncName(fn), what))
+			}
+		}
+		if nBadG == 0 {
+			r.OK(kp("RACE", "no-goroutines-or-channels#none"), "validation, sign-bytes, query and genesis-validation code is sequential: no goroutine, channel or WaitGroup (nothing to deadlock on or to race with)", "x/*, types/compkey",
+				fmt.Sprintf("%d functions, none starts a goroutine or uses a channel", len(scopeG)))
+		}
+		if fx, err := buildFixture(p, "gofx", "package gofx\n\nfunc Bad(xs []int) int {\n\tc := make(chan int, 1)\n\tfor _, x := range xs {\n\t\tgo func(v int) { c <- v }(x)\n\t}\n\treturn <-c\n}\n\nfunc Good(xs []int) int {\n\tn := 0\n\tfor _, x := range xs {\n\t\tn += x\n\t}\n\treturn n\n}\n"); err != nil {
+			r.Undecided(kp("RACE", "no-goroutines-or-channels#control"), "positive control for the goroutine/channel matcher", "checker/c20.go", "fixture does not build: "+err.Error())
+		} else {
+			b1, _ := goroutineOrChannelUse(fx["Bad"])
+			b2, _ := goroutineOrChannelUse(fx["Good"])
+			r.Check(b1 != "" && b2 == "", kp("RACE", "no-goroutines-or-channels#control"), "positive control: a fan-out over a channel is reported, a plain loop is not", "checker/c20.go", "1 of 1 / 0 of 1", fmt.Sprintf("bad=%q good=%q", b1, b2))
+		}
+	}
 	// repeated queries at a fixed height give identical answers: no query answer is assembled in map iteration order
 	{
 		nMapQ := 0
@@ -455,4 +486,41 @@ func sliceGlobalBehind(v ssa.Value, seen map[ssa.Value]bool) *ssa.Global {
 		}
 	}
 	return nil
+}
+
+
+// goroutineOrChannelUse: the first goroutine start, channel operation or WaitGroup wait in fn (closures included).
+func goroutineOrChannelUse(fn *ssa.Function) (string, ssa.Instruction) {
+	if fn == nil {
+		return "", nil
+	}
+	for _, b := range fn.Blocks {
+		for _, in := range b.Instrs {
+			switch x := in.(type) {
+			case *ssa.Go:
+				return "a go statement", in
+			case *ssa.Send:
+				return "a channel send", in
+			case *ssa.Select:
+				return "a select", in
+			case *ssa.MakeChan:
+				return "a channel", in
+			case *ssa.UnOp:
+				if x.Op == token.ARROW {
+					return "a channel receive", in
+				}
+			case ssa.CallInstruction:
+				n := calleeName(x.Common())
+				if strings.HasPrefix(n, "(*sync.WaitGroup).") || strings.HasPrefix(n, "(*golang.org/x/sync/errgroup.Group).") {
+					return n, in
+				}
+			}
+		}
+	}
+	for _, af := range fn.AnonFuncs {
+		if w, at := goroutineOrChannelUse(af); w != "" {
+			return w, at
+		}
+	}
+	return "", nil
 }
